@@ -23,21 +23,27 @@ from .. import tlc
 from ..common import Check, load_known
 from ..probe import quiet_logging
 from . import c09_world as world
+from . import c09_extra as extra
 
 SPEC = tlc.SPECS / "capacity"
 CAP_INVS = ["InvNoOverAdmit", "InvConservation", "InvAvailBound", "InvFifo", "InvPrompt", "InvTimePasses",
             "InvServed"]
 POOL_INVS = ["InvPoolLimit", "InvPoolConservation", "InvPoolBounds", "InvPoolFifo", "InvPoolPrompt",
              "InvPoolServed"]
-# deviation -> (module, invariant that must catch it)
-DEVIATIONS = {
-    "zero_delay_poll": ("Capacity", "InvTimePasses"),
-    "wake_lifo": ("Capacity", "InvFifo"),
-    "admit_when_full": ("Capacity", "InvNoOverAdmit"),
-    "release_leak": ("Capacity", "InvConservation"),
-    "release_no_wake": ("Capacity", "InvPrompt"),
-    "pool_counts_after_setup": ("Pool", "InvPoolLimit"),
-}
+BARRIER_INVS = ["InvBarrierLimit", "InvBarrierNotEarly", "InvBarrierPrompt", "InvTimePasses", "InvBarrierServed"]
+# (deviation, module, invariant that must catch it when it is switched on alone)
+DEVIATIONS = [
+    ("zero_delay_poll", "Capacity", "InvTimePasses"),
+    ("wake_lifo", "Capacity", "InvFifo"),
+    ("admit_when_full", "Capacity", "InvNoOverAdmit"),
+    ("release_leak", "Capacity", "InvConservation"),
+    ("release_no_wake", "Capacity", "InvPrompt"),
+    ("pool_counts_after_setup", "Pool", "InvPoolLimit"),
+    ("zero_delay_poll", "Barrier", "InvTimePasses"),
+    ("barrier_off_by_one", "Barrier", "InvBarrierNotEarly"),
+    ("barrier_no_wake", "Barrier", "InvBarrierPrompt"),
+]
+POOL_DEVS = {d for d, m, _ in DEVIATIONS if m == "Pool"}
 PRIMS_OF_KIND = {"fifo": ["Resource", "Semaphore", "PreemptibleResource", "Mutex"], "rwlock": ["RWLock"],
                  "bulkhead": ["Bulkhead"], "try": ["WeightedConcurrency", "FixedConcurrency", "DynamicConcurrency"]}
 TICKS = (10**6, 10**3, 10**9)
@@ -61,6 +67,10 @@ def pool_consts(maxes, *, nw=3, lat=2, npolls=3, maxarr=2, maxhold=2, dev=()):
             "NPolls": npolls, "MaxArr": maxarr, "MaxHold": maxhold, "Dev": devset(dev)}
 
 
+def barrier_consts(*, nw=4, parties=(1, 2, 3), maxarr=2, dev=()):
+    return {"NW": nw, "Parties": "{" + ",".join(str(m) for m in parties) + "}", "MaxArr": maxarr, "Dev": devset(dev)}
+
+
 POOL_ENVELOPE = dict(maxes=(1, 2), nw=3, lat=2, maxarr=2, maxhold=2)
 
 # ---------------------------------------------------------------------------
@@ -74,6 +84,7 @@ def mc_jobs(tier):
     jobs = [
         ("cap_quick", "CapacityMC", cap_consts("MCQuick"), CAP_INVS, not q, True, big),
         ("pool_12", "Pool", pool_consts((1, 2)), POOL_INVS, True, False, mid),
+        ("barrier", "Barrier", barrier_consts(), BARRIER_INVS, True, False, 1),
     ]
     if q:
         jobs.append(("cap_live", "CapacityMC", cap_consts("MCLive"), CAP_INVS, True, False, 1))
@@ -85,6 +96,8 @@ def mc_jobs(tier):
             ("pool_slow", "Pool", pool_consts((1, 2), lat=3, npolls=4, maxarr=3, maxhold=3), POOL_INVS, False, False,
              mid),
             ("pool_nw4", "Pool", pool_consts((1, 2, 3), nw=4, maxarr=2, maxhold=1), POOL_INVS, False, False, mid),
+            ("barrier_nw6", "Barrier", barrier_consts(nw=6, parties=(2, 3, 4), maxarr=2), BARRIER_INVS, True, False,
+             mid),
         ]
     return jobs
 
@@ -107,13 +120,16 @@ def start_model_checking(tier):
     for (name, module, consts, invs, live, dump, workers) in mc_jobs(tier):
         job = (name, module, consts, invs, live, dump, workers, f"C09_mc_{name}")
         futs[name] = (job, ex.submit(run_tlc_job, job))
-    for dev, (module, inv) in DEVIATIONS.items():
+    for dev, module, inv in DEVIATIONS:
         if module == "Pool":
             consts, invs, mod = pool_consts((1,), maxarr=0, maxhold=1, dev=[dev]), POOL_INVS, "Pool"
+        elif module == "Barrier":
+            consts, invs, mod = barrier_consts(nw=3, parties=(2,), maxarr=1, dev=[dev]), BARRIER_INVS, "Barrier"
         else:
             consts, invs, mod = cap_consts("MCSens", maxarr=0, maxhold=1, dev=[dev]), CAP_INVS, "CapacityMC"
-        job = (f"dev_{dev}", mod, consts, invs, False, False, 1, f"C09_dev_{dev}")
-        futs[f"dev_{dev}"] = (job, ex.submit(run_tlc_job, job))
+        name = f"dev_{module}_{dev}"
+        job = (name, mod, consts, invs, False, False, 1, f"C09_{name}")
+        futs[name] = (job, ex.submit(run_tlc_job, job))
     return ex, futs
 
 
@@ -124,11 +140,11 @@ def collect_model_checking(chk, futs):
         res, wd = fut.result()
         _, module, consts, invs, live, dump, _, _ = job
         if name.startswith("dev_"):
-            dev = name[4:]
+            _, mod0, dev = name.split("_", 2)
             chk.add_tlc(f"{module} Dev={{{dev}}}", res, count=False, note="sensitivity run, must violate")
-            want = DEVIATIONS[dev][1]
-            chk.require(res.violated == want, f"deviation {dev} not caught by {want} (got {res.violated})")
-            chk.sensitivity[dev] = res.violated
+            want = next(i for d, m, i in DEVIATIONS if d == dev and m == mod0)
+            chk.require(res.violated == want, f"{mod0}: deviation {dev} not caught by {want} (got {res.violated})")
+            chk.sensitivity[f"{mod0}:{dev}"] = res.violated
             continue
         chk.add_tlc(f"{module} Dev={{}} {name}" + (" +liveness" if live else ""), res,
                     note=" ".join(f"{k}={v}" for k, v in consts.items()))
@@ -255,29 +271,6 @@ def _validate_chunk(module, part, label):
     return verdicts, res
 
 
-def validate_all(batches, parallel=4, chunk=1500):
-    """batches: [(module, traces, label)] -> {label: (verdicts, [results])}; chunks run as parallel TLC processes"""
-    jobs = []
-    for module, traces, label in batches:
-        n = max(1, -(-len(traces) // chunk))
-        size = -(-len(traces) // n) if traces else 0
-        for k in range(n):
-            jobs.append((label, module, traces[k * size:(k + 1) * size], f"{label}_{k}"))
-    out = {label: ({}, []) for _, _, label in batches}
-    with ThreadPoolExecutor(max_workers=parallel) as ex:
-        futs = [(label, ex.submit(_validate_chunk, module, part, lab)) for label, module, part, lab in jobs if part]
-        for label, f in futs:
-            v, r = f.result()
-            out[label][0].update(v)
-            out[label][1].append(r)
-    return out
-
-
-def validate(module, traces, label):
-    v, r = _validate_chunk(module, traces, label)
-    return v, [r]
-
-
 def cap_key(verdict, prim):
     """Name a contract failure by what fails and where (never a catch-all)."""
     clause = verdict[5:]
@@ -288,58 +281,120 @@ def cap_key(verdict, prim):
 
 # ---------------------------------------------------------------------------
 
+BATCH_MODULE = {"cap": "CapacityTrace.tla", "pool": "PoolTrace.tla", "barrier": "BarrierTrace.tla"}
+BARRIER_ENVELOPE = dict(nw=4, parties=(1, 2, 3), maxarr=2)
+
+
+def make_world(scen, known_dev):
+    """scenario -> (world object (not yet run), batch name, primitive label)"""
+    prim = scen["prim"]
+    if prim == "ConnectionPool":
+        return world.PoolWorld(scen), "pool", prim
+    if prim == "Barrier":
+        return extra.BarrierWorld(scen), "barrier", prim
+    if prim == "ThreadPool":
+        return extra.ThreadPoolWorld(scen), "cap", prim
+    if prim == "PreemptibleResource+prio":
+        return extra.PreemptWorld(scen), "cap", "PreemptibleResource"
+    if prim == "Bulkhead":
+        return world.BulkheadWorld(scen), "cap", prim
+    return world.World(scen), "cap", prim
+
+
+def judge(chk, batch, verdict, pos, drift, m, known_dev):
+    """Turn one trace verdict into a violation / known finding / drift note."""
+    prim = m["prim"]
+    if verdict.startswith("PROP:"):
+        clause = verdict[5:]
+        if batch == "pool":
+            explained = [d for d in known_dev if d in POOL_DEVS and clause == "pool_over_max" and drift == ""]
+            key = explained[0] if explained else f"{clause}:{prim}"
+            desc = f"{verdict} at record {pos} ({prim}, {m['origin']}; model drift: {drift or 'none'})"
+        else:
+            key = cap_key(verdict, prim)
+            desc = f"{verdict} at record {pos} ({prim}, {m['origin']})"
+        chk.violation(key, desc, {"scenario": m["scenario"], "verdict": verdict, "pos": pos})
+    elif verdict != "ACCEPT":
+        chk.note_drift(f"{prim} ({m['origin']}): {verdict} at {pos}; scenario {json.dumps(m['scenario'])[:300]}")
+    elif drift:
+        chk.note_drift(f"{prim} ({m['origin']}): {drift}; scenario {json.dumps(m['scenario'])[:300]}")
+
+
 def run(tier, seed, replay=None):
     quiet_logging()
     chk = Check("C09", tier, seed)
+    known_dev = as_code_dev()
     if replay:
-        return do_replay(chk, replay)
+        return do_replay(chk, replay, known_dev)
     rng = random.Random(seed)
     quick = tier == "quick"
-    known_dev = as_code_dev()
     spin_prone = set(world.POLLING_PRIMS) if "zero_delay_poll" in known_dev else set()
-
     t0 = time.time()
     phase = {}
     ex, futs = start_model_checking(tier)
+    vex = ThreadPoolExecutor(max_workers=max(2, tlc.DEFAULT_WORKERS // 4))
+    vfuts = []          # (batch, future)
+    traces = {"cap": [], "pool": [], "barrier": []}
+    sent = {"cap": 0, "pool": 0, "barrier": 0}
+    meta = {}
+    ntid = [0]
+    per_prim = {}
 
-    cap_traces, cap_meta, pool_traces, pool_meta = [], {}, [], {}
-
-    def exec_cap(scen, origin):
-        w = world.run_scenario(scen)
-        tid = len(cap_traces) + 1
-        cap_traces.append(w.trace(tid))
-        cap_meta[tid] = {"origin": origin, "scenario": scen, "abort": w.abort}
+    def execute(scen, origin):
+        w, batch, prim = make_world(scen, known_dev)
+        w.run()
+        ntid[0] += 1
+        tid = ntid[0]
+        traces[batch].append(w.trace(tid, known_dev) if batch == "pool" else w.trace(tid))
+        meta[tid] = {"origin": origin, "scenario": scen, "abort": w.abort, "prim": prim, "batch": batch}
+        per_prim[prim] = per_prim.get(prim, 0) + 1
         chk.impl_steps += len(w.log)
         if w.err:
-            chk.violation(f"exception:{w.err.split(':')[0]}:{scen['prim']}", f"real code raised {w.err}",
-                          {"world": "cap", "scenario": scen})
+            chk.violation(f"exception:{w.err.split(':')[0]}:{prim}", f"real code raised {w.err}",
+                          {"scenario": scen})
         if w.abort == "overrun":
-            chk.note_drift(f"run aborted by the delivery cap: {scen['prim']}")
+            chk.note_drift(f"run aborted by the delivery cap: {prim}")
         return w
 
-    def exec_pool(scen, origin):
-        w = world.PoolWorld(scen).run()
-        tid = len(pool_traces) + 1
-        pool_traces.append(w.trace(tid, known_dev))
-        pool_meta[tid] = {"origin": origin, "scenario": scen, "abort": w.abort}
-        chk.impl_steps += len(w.log)
-        if w.err:
-            chk.violation(f"exception:{w.err.split(':')[0]}:ConnectionPool", f"real code raised {w.err}",
-                          {"world": "pool", "scenario": scen})
-        return w
+    def flush(chunk=1200):
+        """hand the traces recorded so far to TLC (separate processes, in the background)"""
+        for batch, ts in traces.items():
+            new = ts[sent[batch]:]
+            for k in range(0, len(new), chunk):
+                part = new[k:k + chunk]
+                label = f"C09_trace_{batch}_{len(vfuts)}"
+                vfuts.append((batch, vex.submit(_validate_chunk, BATCH_MODULE[batch], part, label)))
+            sent[batch] = len(ts)
 
-    # code -> spec, part 1 (runs while TLC is busy): random / adversarial populations beyond the bounds
+    # code -> spec, part 1 (while TLC is busy): random / adversarial populations beyond the model's bounds
     n_rand = 100 if quick else 2500
     prims = [p for ps in PRIMS_OF_KIND.values() for p in ps]
     for k in range(n_rand):
         for prim in prims:
-            exec_cap(random_cap_scenario(rng, prim, prim in spin_prone), "random")
-    for k in range(n_rand * 3):
-        exec_pool(random_pool_scenario(rng), "random")
-    extra_families(chk, rng, tier, known_dev)
-    phase["random_runs"] = round(time.time() - t0, 1)
+            execute(random_cap_scenario(rng, prim, prim in spin_prone), "random")
+        for _ in range(3):
+            execute(random_pool_scenario(rng), "random")
+        execute(extra.random_barrier_scenario(rng, "Barrier" in spin_prone), "random")
+        execute(extra.random_threadpool_scenario(rng), "random")
+        execute(extra.random_preempt_scenario(rng), "random")
+    # the bounded envelopes of Pool.tla and Barrier.tla, every scenario (spec -> code for these two models)
+    pscens = pool_scenarios_from_model(POOL_ENVELOPE)
+    if quick and len(pscens) > 400:
+        pscens = rng.sample(pscens, 400)
+    for s in pscens:
+        execute(s, "model")
+        chk.replays += 1
+    import itertools
+    be = BARRIER_ENVELOPE
+    for n in be["parties"]:
+        for i, arrs in enumerate(itertools.product(range(be["maxarr"] + 1), repeat=be["nw"])):
+            execute(extra.barrier_scenario(n, list(arrs), TICKS[i % 3]), "model")
+            chk.replays += 1
+    phase["random_and_envelope_runs"] = round(time.time() - t0, 1)
+    flush()
 
-    # TLC results; spec -> code: every scenario of the envelope on every primitive class of the kind
+    # TLC results; spec -> code: every scenario of the Capacity envelope on every primitive class of its kind,
+    # grant instants compared with the outcomes TLC computed
     outcomes = collect_model_checking(chk, futs)
     ex.shutdown()
     phase["tlc_done"] = round(time.time() - t0, 1)
@@ -364,7 +419,7 @@ def run(tier, seed, replay=None):
                     mr = cap if (cap < nw or i % 2) else None
                 order = None if i % 2 == 0 else list(reversed(range(nw)))
                 scen = scen_from_model(prim, ck, key, TICKS[i % len(TICKS)], order, mr)
-                w = exec_cap(scen, f"model:{kind}/cap{cap}/q{qmax}")
+                w = execute(scen, f"model:{kind}/cap{cap}/q{qmax}")
                 chk.replays += 1
                 if w.abort or w.err:
                     skipped += 1
@@ -384,68 +439,41 @@ def run(tier, seed, replay=None):
     chk.extra["replay_outcome_mismatched"] = mismatched
     chk.extra["replay_skipped_aborted"] = skipped
     chk.exhaustive = not quick
-
-    pscens = pool_scenarios_from_model(POOL_ENVELOPE)
-    if quick and len(pscens) > 400:
-        pscens = rng.sample(pscens, 400)
-    for s in pscens:
-        exec_pool(s, "model")
-        chk.replays += 1
-
     phase["model_scenarios_run"] = round(time.time() - t0, 1)
-    # trace validation (contract oracle + implementation-shaped model following)
-    vout = validate_all([("CapacityTrace.tla", cap_traces, "C09_trace_cap"),
-                         ("PoolTrace.tla", pool_traces, "C09_trace_pool")],
-                        parallel=max(2, tlc.DEFAULT_WORKERS // 2))
-    cv, cres = vout["C09_trace_cap"]
-    pv, pres = vout["C09_trace_pool"]
+    flush()
+
+    # trace validation results (contract oracle + implementation-shaped model following)
+    verdicts = {}
+    for batch, f in vfuts:
+        v, res = f.result()
+        verdicts.update(v)
+        chk.add_tlc(f"{BATCH_MODULE[batch][:-4]} batch" + (f" (model Dev={known_dev})" if batch == "pool" else ""),
+                    res, note="trace validation")
+    vex.shutdown()
     phase["traces_validated"] = round(time.time() - t0, 1)
     chk.extra["phase_s"] = phase
-    for r in cres:
-        chk.add_tlc("CapacityTrace batch", r, note="trace validation")
-    for r in pres:
-        chk.add_tlc(f"PoolTrace batch (model Dev={known_dev})", r, note="trace validation")
-    chk.impl_traces += len(cap_traces) + len(pool_traces)
+    chk.impl_traces = len(meta)
+    for tid in sorted(verdicts):
+        v, pos, drift = verdicts[tid]
+        judge(chk, meta[tid]["batch"], v, pos, drift, meta[tid], known_dev)
 
-    for tid, (v, pos, _) in sorted(cv.items()):
-        if v == "ACCEPT":
-            continue
-        m = cap_meta[tid]
-        if v.startswith("PROP:"):
-            prim = m["scenario"]["prim"]
-            chk.violation(cap_key(v, prim), f"{v} at record {pos} ({prim}, {m['origin']})",
-                          {"world": "cap", "scenario": m["scenario"], "verdict": v, "pos": pos})
-        else:
-            chk.note_drift(f"{m['scenario']['prim']} trace {tid} ({m['origin']}): {v} at {pos}")
-    for tid, (v, pos, drift) in sorted(pv.items()):
-        m = pool_meta[tid]
-        if v.startswith("PROP:"):
-            clause = v[5:]
-            explained = [d for d in known_dev if d in DEVIATIONS and DEVIATIONS[d][0] == "Pool"
-                         and clause == "pool_over_max" and drift == ""]
-            key = explained[0] if explained else f"{clause}:ConnectionPool"
-            chk.violation(key, f"{v} at record {pos} (ConnectionPool, {m['origin']}; model drift: {drift or 'none'})",
-                          {"world": "pool", "scenario": m["scenario"], "verdict": v, "pos": pos})
-        elif drift:
-            chk.note_drift(f"ConnectionPool trace {tid} ({m['origin']}): {drift}")
-
-    for t in (cap_traces[:1] + pool_traces[:1]):
-        chk.sample({"trace": t})
-    chk.extra["cap_traces"] = len(cap_traces)
-    chk.extra["pool_traces"] = len(pool_traces)
-    chk.extra["runs_aborted_by_spin_guard"] = sum(1 for m in cap_meta.values() if m["abort"] == "spin")
+    for b in ("cap", "pool", "barrier"):
+        if traces[b]:
+            chk.sample({"batch": b, "scenario": meta[traces[b][0]["id"]]["scenario"], "trace": traces[b][0]})
+    chk.extra["real_runs_per_primitive"] = per_prim
+    chk.extra["runs_aborted_by_spin_guard"] = sum(1 for m in meta.values() if m["abort"] == "spin")
     chk.assumptions = [
         "hold times / arrival offsets are multiples of a tick whose float value converts to nanoseconds exactly",
         "a worker holds at most one grant of the primitive at a time; amounts never exceed the capacity",
         "RWLock is judged as a counted resource: capacity = max_readers (or the population when unlimited), a "
         "reader takes 1, a writer takes all",
         "for primitives whose grant is only visible when the acquiring process resumes (Mutex, Semaphore, RWLock, "
-        "Bulkhead) equalities and arrival order are judged at the end of each instant and at every re-delivery "
-        "of a blocked waiter; inequalities at every step",
+        "Bulkhead, Barrier) equalities and arrival order are judged at the end of each instant and at every "
+        "re-delivery of a blocked waiter; inequalities at every step",
         "a frozen clock is reported only when more than 2n+2 consecutive engine deliveries at one instant were "
         "re-deliveries of blocked waiters (n = number of requests): then the same deliveries repeat forever",
-        "pool: waiting by timed polling (0.1 s) is accepted as 'letting time pass'; PreemptibleResource is "
-        "driven without preemption and with equal priorities",
+        "pool: waiting by timed polling (0.1 s) is accepted as 'letting time pass'; arrival order is not demanded "
+        "of PreemptibleResource with priorities nor of ThreadPool (counting clauses only)",
     ]
     chk.explanation = ("TLC checks the contract on the implementation-shaped models for all scenarios within the "
                        "bounds and all same-instant delivery orders; every bounded scenario and random larger "
@@ -454,38 +482,17 @@ def run(tier, seed, replay=None):
     return chk.finish()
 
 
-def extra_families(chk, rng, tier, known_dev):
-    """Barrier / Condition / ThreadPool / preemption drivers (c09_extra.py), if present."""
-    try:
-        from . import c09_extra
-    except ImportError:
-        return
-    c09_extra.run_extra(chk, rng, tier, known_dev)
-
-
-def do_replay(chk, path):
+def do_replay(chk, path, known_dev):
     data = json.loads(open(path).read())
-    rp = data["replay"]
-    scen = rp["scenario"]
-    known_dev = as_code_dev()
-    if rp.get("world") == "extra":
-        from . import c09_extra
-        return c09_extra.replay(chk, data)
-    if rp.get("world") == "pool":
-        w = world.PoolWorld(scen).run()
-        v, _ = validate("PoolTrace.tla", [w.trace(1, known_dev)], "C09_replay")
-        prim = "ConnectionPool"
-    else:
-        w = world.run_scenario(scen)
-        v, _ = validate("CapacityTrace.tla", [w.trace(1)], "C09_replay")
-        prim = scen["prim"]
+    scen = data["replay"]["scenario"]
+    w, batch, prim = make_world(scen, known_dev)
+    w.run()
+    tr = w.trace(1, known_dev) if batch == "pool" else w.trace(1)
+    v, _ = _validate_chunk(BATCH_MODULE[batch], [tr], "C09_replay")
+    verdict, pos, drift = v[1]
     chk.impl_traces = 1
-    verdict = v[1][0]
-    print(f"replay verdict: {verdict} at {v[1][1]} err={w.err} abort={w.abort}")
+    print(f"replay: {prim} verdict={verdict} at {pos} drift={drift!r} err={w.err} abort={w.abort}")
     if w.err:
-        chk.violation(f"exception:{w.err.split(':')[0]}:{prim}", f"real code raised {w.err}", rp)
-    if verdict.startswith("PROP:"):
-        key = data["key"] if data["key"].startswith(verdict[5:]) or data["key"].startswith("zero_delay_poll") \
-            else cap_key(verdict, prim)
-        chk.violation(key, f"{verdict} at record {v[1][1]} ({prim}, replay)", rp)
+        chk.violation(f"exception:{w.err.split(':')[0]}:{prim}", f"real code raised {w.err}", {"scenario": scen})
+    judge(chk, batch, verdict, pos, drift, {"origin": "replay", "scenario": scen, "prim": prim}, known_dev)
     return chk.finish()
